@@ -352,7 +352,9 @@ def run_history(h):
         # allocators; the partial trace is still judged, the history is counted as rejected
         r["status"] = f"rejected:crash({res['rc']})"
         r["crashed"] = True
-    if os.path.exists(res["trace"]) and (not r["status"].startswith("rejected") or r.get("crashed")):
+    # a history that ended early (MIR error, crash, …) is not judged at `fin`, but what its partial trace
+    # shows (wrong realloc sizes, freed blocks still referenced, raw allocator use, …) still counts
+    if os.path.exists(res["trace"]):
         v, st, out = judge(res, h["steps"])
         r["viol"] += v
         r["stats"] = st
